@@ -64,11 +64,16 @@ Oracle  gather-form nested loops
         length N + max(own discretized delay); frequency domain: O(N^2) DFT
         sum_d h[d] exp(-2 pi j bin d / fft) at bins range(fft)[selection].
         Multi-user: superposition of the links.  For Jakes generators the
-        reported taps are additionally compared with the Jakes formula evaluated
-        at the sample counter of a reference model (a time-domain transmission
-        of N symbols consumes N fading samples, a frequency-domain block
-        consumes fft_size samples) using the phases read back from the seeded
-        generator.
+        reported taps are additionally compared with sqrt(P_tap [* pathloss]) times
+        the samples of a COPY of the link's generator driven through the generator's
+        public API by a reference model of the sample consumption (a time-domain
+        transmission of N symbols consumes N fading samples, a frequency-domain
+        block one sample + fft_size - 1 skipped).  No private field of the channel
+        classes is named except the three that lead to a Mu link's generator
+        (looked up by candidate names; the relation is skipped and counted when
+        they are unavailable).  State digests are bfs.digest(bfs.state_of(obj)).
+        An exception raised by the check's own code is Broken (exit 2), never a
+        violation.
 """
 import cmath
 import itertools
@@ -76,9 +81,48 @@ import math
 
 import numpy as np
 
-from vmc import common, numerics
+import copy
+import hashlib
+import os
+import traceback
+from contextlib import contextmanager
+
+from vmc import bfs, common, numerics
 from vmc.parallel import run_shards
-from vmc.report import Check
+from vmc.report import Broken, Check
+
+MISSING = object()
+UNKNOWN = "unknown"        # a path loss the reference model cannot know (after an invalid set_pathloss)
+
+
+def _private(obj, *candidate_names, default=MISSING):
+    """the first existing attribute among the candidate (private) names, else `default` - never an
+    AttributeError: a relation whose oracle input is unavailable is skipped and counted"""
+    for name in candidate_names:
+        v = getattr(obj, name, MISSING)
+        if v is not MISSING:
+            return v
+    return default
+
+
+@contextmanager
+def own_errors_are_broken():
+    """an exception whose innermost relevant frame is the check's own code (checks/ or vmc/) says
+    nothing about the property: the check is broken (exit 2), it is not a violation"""
+    try:
+        yield
+    except (Broken, KeyboardInterrupt, SystemExit):
+        raise
+    except BaseException as e:  # noqa
+        own = (os.path.join(common.VERIF_DIR, "checks") + os.sep, os.path.join(common.VERIF_DIR, "vmc") + os.sep)
+        for fr in reversed(traceback.extract_tb(e.__traceback__)):
+            f = os.path.abspath(fr.filename)
+            if "/pyphysim/" in f:
+                raise                       # raised by the library: the caller's guard decides
+            if f.startswith(own):
+                raise Broken("exception in the check's own code (%s:%d in %s): %s: %s"
+                             % (os.path.basename(f), fr.lineno, fr.name, type(e).__name__, e)) from e
+        raise
 
 PID = "C03"
 LEVEL = "exploration"
@@ -404,37 +448,50 @@ class Sut:
                 self.pl[(i, j)] = None
         self.results = []                         # (X, outputs) of the transmissions so far
         self.after_invalid = None                 # kind of the last invalid call made on this object
-        self.jk = {}                              # (i,j) -> (phi, psi, t0) read back from the generator
-        self.read_back_phases(first=True)
+        self.clone = {}                           # (i,j) -> own copy of that link's fading generator
+        self.reclone()
 
-    def read_back_phases(self, first=False, resync=False):
-        """Jakes phases of every link (they are redrawn when the antenna shape changes); the start
-        time is read only once - except after an invalid call (resync), when the position of every
-        link's fading process is re-read so that the model's sample counter continues from there"""
+    def link_generator(self, i, j):
+        """the fading generator object of a link: the one this check constructed and passed in (single
+        link wrappers), else - Mu channels build their links' generators themselves - looked up by
+        candidate names; None when unavailable"""
+        if self.family != "mu":
+            return self.gen_obj
+        links = _private(self.ch, "_su_siso_channels", "_su_channels", "_links")
+        if links is MISSING:
+            return None
+        try:
+            su = links[i, j]
+        except Exception:  # noqa
+            return None
+        tdl = _private(su, "_tdlchannel", "_tdl_channel", "_tdl", "_channel")
+        g = MISSING if tdl is MISSING else _private(tdl, "_fading_generator", "_generator", "fading_generator")
+        return None if g is MISSING else g
+
+    def reclone(self):
+        """(re)start the fading reference: a shallow copy of every link's (Jakes) generator, from now on
+        driven through the generator's PUBLIC API (generate_more_samples / get_samples /
+        skip_samples_for_next_generation) according to the reference model of the sample consumption.
+        Called at construction, after the antenna shape changed (phases are redrawn) and after an
+        invalid call (which may or may not have advanced the fading)."""
+        self.clone = {}
         if not self.jakes:
             return
         for (i, j) in self.pl:
-            gobj = self._generator(i, j)
-            if first:
-                t0 = float(gobj._current_time)
-            elif resync:
-                t0 = float(gobj._current_time) - self.counter * self.Ts
-            else:
-                t0 = self.jk[(i, j)][2]
-            self.jk[(i, j)] = (np.array(gobj._phi_l, dtype=float), np.array(gobj._psi_l, dtype=float), t0)
+            g = self.link_generator(i, j)
+            self.clone[(i, j)] = None if g is None else copy.copy(g)
 
-    def resync_after_invalid_call(self):
+    def resync_after_invalid_call(self, what):
         """an invalid call may or may not have advanced the fading, replaced the stored response or
-        applied part of a path-loss matrix: continue from the state the object itself now holds"""
-        self.read_back_phases(resync=True)
+        applied part of a path-loss matrix: continue from the state the object itself now holds.
+        Direction: public property.  Fading: re-copied generators.  Path loss has no public per-link
+        accessor: after an invalid set_pathloss it is UNKNOWN to the model until the next valid set
+        (the fading reference is then compared up to one real factor in [0, 1] per link)."""
+        self.reclone()
         self.switched = bool(self.ch.switched_direction)
-        for (i, j) in self.pl:
-            if self.family == "su":
-                self.pl[(i, j)] = self.ch._pathloss_value
-            elif self.family == "mu":
-                self.pl[(i, j)] = self.ch._su_siso_channels[i, j]._pathloss_value
-            if self.pl[(i, j)] is not None:
-                self.pl[(i, j)] = float(self.pl[(i, j)])
+        if what.startswith("pathloss"):
+            for link in self.pl:
+                self.pl[link] = UNKNOWN
         self.retained = []
 
     @property
@@ -446,53 +503,13 @@ class Sut:
         self._cnt[0] = v
 
     def digest(self, rng=True):
-        """everything a later transmission depends on, as bytes (seam read-back): fading time and
-        phases of every link, the stored last response, direction, path loss, the global numpy RNG"""
-        import hashlib
-        h = hashlib.sha1()
-
-        def add(x):
-            if isinstance(x, np.ndarray):
-                h.update(str((x.shape, x.dtype)).encode())
-                h.update(np.ascontiguousarray(x).tobytes())
-            else:
-                h.update(repr(x).encode())
-        for (i, j) in sorted(self.pl):
-            g = self._generator(i, j)
-            add(g.shape)
-            if self.jakes:
-                add(float(g._current_time)); add(np.asarray(g._phi_l)); add(np.asarray(g._psi_l))
-            t = self._tdl(i, j)
-            r = t._last_impulse_response
-            add(None if r is None else (id(r), id(r.channel_profile)))
-            if r is not None:
-                add(np.asarray(r.tap_values_sparse))
-            add(t._switched_direction)
-            add(np.asarray(t.channel_profile.tap_delays)); add(np.asarray(t.channel_profile.tap_powers_dB))
-            if self.family != "tdl":
-                su = self.ch if self.family == "su" else self.ch._su_siso_channels[i, j]
-                add(su._pathloss_value)
-        if self.family == "mu":
-            pm = self.ch._pathloss_matrix
-            add(None if pm is None else np.asarray(pm))
+        """everything a later transmission depends on: the generic digest of the whole object graph
+        (no field is named) and, optionally, the state of the global numpy RNG"""
+        d = bfs.digest(bfs.state_of(self.ch), 17)
         if rng:
             st = np.random.get_state()
-            add(st[1]); add(st[2:])
-        return h.hexdigest()
-
-    def _tdl(self, i, j):
-        if self.family == "tdl":
-            return self.ch
-        if self.family == "su":
-            return self.ch._tdlchannel
-        return self.ch._su_siso_channels[i, j]._tdlchannel
-
-    def _generator(self, i, j):
-        if self.family == "tdl":
-            return self.ch._fading_generator
-        if self.family == "su":
-            return self.ch._tdlchannel._fading_generator
-        return self.ch._su_siso_channels[i, j]._tdlchannel._fading_generator
+            d += hashlib.sha1(np.asarray(st[1]).tobytes() + repr(st[2:]).encode()).hexdigest()[:12]
+        return d
 
     # dimensions seen by a transmission
     def dims(self):
@@ -637,18 +654,26 @@ def selection_bins(fft, sel):
     return [r[int(i)] for i in (sel.tolist() if isinstance(sel, np.ndarray) else sel)]
 
 
-def jakes_expected(sut, link, sample_indexes):
-    """sqrt(P_tap) * Jakes formula at the given sample numbers -> (L, [nr, nt,] len)"""
-    phi, psi, t0 = sut.jk[link]
-    t = t0 + np.asarray(sample_indexes, dtype=float) * sut.Ts
-    arg = 2 * math.pi * sut.Fd * np.cos(phi) * t + psi         # (rays, L, [nr, nt,] len)
-    h = math.sqrt(1.0 / JAKES_L) * np.sum(np.exp(1j * arg), axis=0)
-    p = np.sqrt(np.array(sut.ref_pow)).reshape((len(sut.ref_pow),) + (1,) * (h.ndim - 1))
-    h = h * p
-    pl = sut.pl[link]
-    if pl is not None:
-        h = h * math.sqrt(pl)
-    return h
+def fading_expected(sut, link, op, n, fft=None):
+    """sqrt(P_tap) * the fading samples the link's generator yields when it is driven as the reference
+    model says: a time-domain transmission (or a direct generate_impulse_response) of n symbols
+    consumes n samples; a frequency-domain block uses one sample and skips fft_size - 1.
+    -> array (L, [nr, nt,] n) without path loss, or None when the generator is unavailable"""
+    cl = sut.clone.get(link)
+    if cl is None:
+        return None
+    if op == "freq":
+        parts = []
+        for _ in range(n):
+            cl.generate_more_samples(1)
+            parts.append(np.array(cl.get_samples()))
+            cl.skip_samples_for_next_generation(fft - 1)
+        smp = np.concatenate(parts, axis=-1)
+    else:
+        cl.generate_more_samples(n)
+        smp = np.array(cl.get_samples())
+    p = np.sqrt(np.array(sut.ref_pow)).reshape((len(sut.ref_pow),) + (1,) * (smp.ndim - 1))
+    return smp * p
 
 
 def check_response_api(sut, resp, chk, base, case):
@@ -658,8 +683,7 @@ def check_response_api(sut, resp, chk, base, case):
     if resp.Ts != sut.Ts or not np.array_equal(np.asarray(resp.tap_delays_sparse),
                                                np.array(sut.ref_idx) * sut.Ts):
         chk.fail(base + ("reported_response_Ts_or_delays",), case)
-    tdl_profile = sut._tdl(*sorted(sut.pl)[0]).channel_profile
-    if resp.channel_profile is not tdl_profile:
+    if resp.channel_profile is not sut.ch.channel_profile:
         chk.fail(base + ("reported_response_profile_is_not_the_channel_profile",), case)
     for scaled, what in ((resp * 2.0, "__mul__"), (2.0 * resp, "__rmul__")):
         if (not isinstance(scaled, fading.TdlImpulseResponse) or scaled is resp
@@ -679,32 +703,51 @@ def check_response_api(sut, resp, chk, base, case):
         pass
 
 
-def check_jakes(sut, link, resp, samples, op, chk, case):
-    """reported taps == sqrt(P_tap [* pathloss]) * Jakes formula at the model's sample counter;
-    tolerance relative to the amplitude of each tap"""
-    want = jakes_expected(sut, link, samples)
+def check_fading(sut, link, resp, n, op, chk, case, fft=None):
+    """reported taps == sqrt(P_tap [* pathloss]) * fading samples of the link's generator at the
+    reference model's position; tolerance relative to the amplitude of each tap"""
+    if not sut.jakes:
+        return
+    want = fading_expected(sut, link, op, n, fft)
+    if want is None:
+        chk.outcome("oracle_input_unavailable", ("fading_generator_of_link", sut.family))
+        chk.count("skipped_fading_reference_links")
+        return
+    chk.count("links_fading_reference_checked")
     vals = np.asarray(resp.tap_values_sparse)
     rel = 1e-9 + 2 * math.pi * sut.Fd * sut.Ts * 4e-10 * (sut.counter + 2)
-    amp = np.sqrt(np.array(sut.ref_pow) * (1.0 if sut.pl[link] is None else sut.pl[link]))
-    ok = vals.shape == want.shape
-    dev = float("inf")
-    if ok:
-        d = np.abs(vals - want).reshape(len(amp), -1).max(axis=1)
-        dev = float(np.max(d / np.maximum(amp, 1e-300))) if np.all(np.isfinite(d)) else float("inf")
-        ok = dev <= rel or not np.any(amp > 0)
-    if not ok:
-        what = "sample_time"
-        if vals.shape == want.shape and np.all(np.isfinite(vals)):
-            # a wrong constant factor (tap power / path loss) or a wrong fading time?
+    pl = sut.pl[link]
+    what = None
+    if vals.shape != want.shape or not np.all(np.isfinite(vals)):
+        what, dev = "sample_time", float("inf")
+    else:
+        unknown = isinstance(pl, str)
+        if unknown:
+            # path loss unknown to the model: one real factor in [0, 1] per link
+            alpha = complex(np.vdot(want, vals) / max(float(np.vdot(want, want).real), 1e-300))
+            factor = alpha.real
+            bad_factor = abs(alpha.imag) > 1e-9 or not (-1e-12 <= alpha.real <= 1.0 + 1e-9)
+        else:
+            factor = 1.0 if pl is None else math.sqrt(pl)
+            bad_factor = False
+        amp = np.sqrt(np.array(sut.ref_pow)) * abs(factor)
+        d = np.abs(vals - factor * want).reshape(len(amp), -1).max(axis=1)
+        dev = float(np.max(d / np.maximum(amp, 1e-300))) if np.any(amp > 0) else float(np.max(d))
+        if bad_factor:
+            what = "constant_factor"
+        elif not dev <= rel and (np.any(amp > 0) or dev > 0):
+            what = "sample_time"
             alpha = complex(np.vdot(want, vals) / max(float(np.vdot(want, want).real), 1e-300))
             d2 = np.abs(vals - alpha * want).reshape(len(amp), -1).max(axis=1)
-            if float(np.max(d2 / np.maximum(amp, 1e-300))) <= rel * max(1.0, abs(alpha)):
-                what = "constant_factor"
-        chk.fail(("reported_response", "jakes_reference", what, op), case,
+            a2 = np.sqrt(np.array(sut.ref_pow)) * abs(alpha)
+            if np.any(a2 > 0) and float(np.max(d2 / np.maximum(a2, 1e-300))) <= rel:
+                what = "constant_factor"      # a wrong tap power / path-loss factor, not a wrong fading time
+    if what is not None:
+        chk.fail(("reported_response", "fading_reference", what, op), case,
                  observed=("max per-tap relative deviation %.3g" % dev) if vals.shape == want.shape else vals.shape,
                  expected="<= %.3g" % rel,
-                 msg="reported taps vs sqrt(P_tap [* pathloss]) * Jakes formula at the model's sample "
-                     "counter (N samples per time-domain transmission, fft_size per block)")
+                 msg="reported taps vs sqrt(P_tap [* pathloss]) * samples of the link's fading generator driven "
+                     "through its public API (n samples per time-domain transmission, 1 + skip fft_size-1 per block)")
 
 
 # ----------------------------------------------------------------------
@@ -906,8 +949,7 @@ def transmit(sut, step, chk, case, results):
                 exp[v] += ref_freq(idx, C, X[u], int(step["fft"]), bins, blocks)
                 if long_memory:
                     exp_trunc[v] += ref_freq(idx, C, X[u], int(step["fft"]), bins, blocks, True)
-            if sut.jakes:
-                check_jakes(sut, link, resp, samples, op, chk, case)
+            check_fading(sut, link, resp, nsamp, op, chk, case, int(step["fft"]) if op == "freq" else None)
             if sut.ntx == 0 or sut.ntx == 2:
                 check_response_api(sut, resp, chk, base, case)
             reports.append((link, resp))
@@ -1048,7 +1090,8 @@ def run_scenario(case, chk0):
                 step = dict(step, _X=LIN_A * X1 + LIN_B * X2)
             if sut.after_invalid is not None:
                 ok = False          # an exception of a VALID transmission after an invalid call is a violation
-                with chk0.guard(("after_invalid_call", sut.after_invalid, "valid_transmission"), case):
+                with chk0.guard(("after_invalid_call", sut.after_invalid, "valid_transmission"), case), \
+                        own_errors_are_broken():
                     ok = transmit(sut, step, chk, case, results)
             else:
                 ok = transmit(sut, step, chk, case, results)
@@ -1130,7 +1173,7 @@ def run_scenario(case, chk0):
             if (sut.ch.num_rx_antennas, sut.ch.num_tx_antennas) != want:
                 chk.fail(("set_num_antennas", sut.family, "read_back"), case,
                          observed=(sut.ch.num_rx_antennas, sut.ch.num_tx_antennas), expected=want)
-            sut.read_back_phases()
+            sut.reclone()
         elif op == "gen_ir":
             # TdlChannel.generate_impulse_response called directly: consumes k fading samples
             chk.count("eval_events")
@@ -1142,8 +1185,7 @@ def run_scenario(case, chk0):
             base = sig_base(sut, "generate_impulse_response")
             if link_coefficients(sut, resp, k, chk, base, case) is None:
                 break
-            if sut.jakes:
-                check_jakes(sut, (0, 0), resp, samples, "gen_ir", chk, case)
+            check_fading(sut, (0, 0), resp, k, "gen_ir", chk, case)
             poison(resp.tap_values_sparse)
         else:
             raise ValueError(op)
@@ -1247,15 +1289,13 @@ def bad_call(sut, what, chk, case):
     chk.count("invalid_calls_accepted" if raised is None else "invalid_calls_raised")
     if changed:
         chk.count("invalid_calls_that_changed_state")
-    sut.resync_after_invalid_call()
+    sut.resync_after_invalid_call(what)
     sut.after_invalid = what
     return True
 
 
 def gen_digest(g):
-    return (g.shape, getattr(g, "_current_time", None),
-            None if getattr(g, "_phi_l", None) is None else np.asarray(g._phi_l).tobytes(),
-            None if getattr(g, "_psi_l", None) is None else np.asarray(g._psi_l).tobytes())
+    return bfs.digest(bfs.state_of(g), 17)
 
 
 def e_cases(tier):
@@ -1324,14 +1364,14 @@ def check_ctor_error(case, chk):
 
 def run_case(case, chk):
     if case["part"] == "E":
-        with chk.guard(("error_path", case["what"]), case):
+        with chk.guard(("error_path", case["what"]), case), own_errors_are_broken():
             check_ctor_error(case, chk)
         return
     if case["part"] == "D":
-        with chk.guard(("discretize",), case):
+        with chk.guard(("discretize",), case), own_errors_are_broken():
             check_discretization(case, chk)
     else:
-        with chk.guard(("scenario", case.get("family", "?"), case["wrapper"]), case):
+        with chk.guard(("scenario", case.get("family", "?"), case["wrapper"]), case), own_errors_are_broken():
             run_scenario(case, chk)
 
 
@@ -1465,9 +1505,13 @@ def fam_freq(tier):
         for sel in selections(fft):
             for blocks in (1, 2, 3):
                 for ant in ANTS:
+                    if ant == (1, 1) and tier == "quick" and blocks == 2:
+                        continue        # quick: the 1x1 "MIMO" shape with 1 and 3 blocks only
                     for sw in (False, True):
                         if ant is None and sw:
                             continue
+                        if sw and tier == "quick" and blocks == 2 and ant in ((1, 2), (2, 1)):
+                            continue    # quick: switched SIMO/MISO with 1 and 3 blocks only
                         for gen, prof in combos:
                             for Ts in ((1.0,) if tier == "quick" else (1.0, 1e-3)):
                                 yield scen("freq", "tdl" if ant != (2, 3) else "tdlmimo", prof, Ts, gen,
@@ -1848,12 +1892,14 @@ def main(chk: Check):
     chk.assume("a reported response is queried immediately after the transmission it belongs to")
     chk.assume("switched direction: the link reported as (rx_idx, tx_idx) carries the signal of original "
                "receiver rx_idx to original transmitter tx_idx; coefficient [r, t] maps antenna r to antenna t")
-    chk.assume("Jakes phases (_phi_l, _psi_l) and the start time are read back from the seeded generator "
-               "objects before the first transmission; Rayleigh taps are owned by np.random.seed per scenario "
+    chk.assume("fading reference: a shallow copy of each link's Jakes generator (the object this check built and "
+               "passed in; for Mu links the generator the channel built, found by candidate private names "
+               "_su_siso_channels/_tdlchannel/_fading_generator, relation skipped and counted if unavailable) is "
+               "driven through the generator's public API; Rayleigh taps are owned by np.random.seed per scenario "
                "and only related to the reported response")
     chk.assume("frequency-domain selections that select no bin are outside the domain")
     chk.extra["tolerance"] = ("|out-ref| <= %g * 2^-52 * (taps*streams+2) * max|h| * max|x|; powers rel %g; "
-                              "Jakes sample-counter relation abs 1e-9 + 2 pi Fd Ts 4e-10 samples"
+                              "fading-reference relation rel 1e-9 + 2 pi Fd Ts 4e-10 samples per tap amplitude"
                               % (C_TOL, POW_RTOL))
     tier = chk.tier
 
@@ -1867,6 +1913,9 @@ def main(chk: Check):
             run_case(case, c)
 
     run_shards(chk, worker)
+    if not chk.counters.get("links_fading_reference_checked"):
+        raise Broken("vacuous: the fading-reference relation was never evaluated (%d links skipped)"
+                     % chk.counters.get("skipped_fading_reference_links", 0))
     chk.sample({"part": "D", "q": [6, 2, 10], "p": [0.0, -3.0, -10.0], "Ts": 1.0})
     chk.sample(scen("freq", "tdl", P_MIX, 1.0, GENS[0],
                     [{"op": "freq", "fft": 5, "sel": slice(1, None, 2), "blocks": 2, "x": ["expo"]}], ant=(2, 3)))
